@@ -59,6 +59,8 @@ def main():
     from Reduino.transpile.emitter import emit
     from Reduino.transpile.parser import parse
 
+    from vlib.checks.C10 import interpreter_state
+    interp0 = interpreter_state()
     # warm-up (lazy imports inside ast/re happen here, outside the fenced region)
     for s in ("x = 1\n", "\u00e9\u7aef = 1\n", "x = (\n", "from Reduino.Actuators import Led\nled = Led(13)\nwhile True:\n    led.toggle()\n",
               "def f(a):\n    return a\nx = f(1)\ns = f\"a{x}\"\nL = [i for i in range(3)]\n"):
@@ -72,6 +74,8 @@ def main():
     resource.setrlimit(resource.RLIMIT_AS, (4 << 30, 4 << 30))
     out = open(sys.argv[2], "a")
     base_state = module_state()[0]
+    # (the warm-up scripts are transpilations too: interpreter settings they leave changed count against the first input)
+    warmup_leak = interpreter_state() != interp0
     env_before = dict(os.environ)
     for idx in range(start, len(inputs)):
         item = inputs[idx]
@@ -121,7 +125,8 @@ def main():
             os.environ.clear()
             os.environ.update(env_before)
         st = module_state()[0]
-        state_changed = st != base_state
+        state_changed = st != base_state or warmup_leak
+        warmup_leak = False
         base_state = st
         # CPython's own SyntaxError machinery tries to read the pseudo file "<unknown>" to show the offending line
         bad = [e for e in EVENTS if e[0] != "compile" and not (e[0] == "open" and e[1].split("|")[0] in ("<unknown>", "<string>") and e[1].endswith("|rb"))]
